@@ -1708,3 +1708,32 @@ for _pid in ("C13", "C12"):
       what="Python and numpy integers are both seeds")
     V("%s-silent-rng-by-none" % _pid.lower(), _pid, "silent" if _pid == "C13" else "undecided", GE, _GE_RNG, "    rng = _get_rng(random_state)\n    # Build intervention sizes\n", more=[(GE, _GE_DEF, _rng_helper("random_state is not None"))],
       what="anything but None is a seed")
+
+# ------------------------------------------------------------------------------- round 11 inspired (C09 / C10: the pass flag of maximally_orient)
+_MO_OLD = """            if rule_1(i, j, P) or rule_2(i, j, P) or rule_3(i, j, P) or rule_4(i, j, P):
+                # orient i -> j
+                oriented_edges = True
+                if debug:
+                    rules = [rule_1(i, j, P), rule_2(i, j, P), rule_3(i, j, P), rule_4(i, j, P)]
+                    print('Rules: %s => Oriented %d -> %d' % (rules, i, j))
+                P[j, i] = 0
+            elif rule_1(j, i, P) or rule_2(j, i, P) or rule_3(j, i, P) or rule_4(j, i, P):
+                oriented_edges = True
+                # orient j -> i
+"""
+def _mo_new(flag):
+    return """            forward = rule_1(i, j, P) or rule_2(i, j, P) or rule_3(i, j, P) or rule_4(i, j, P)
+            backward = not forward and (rule_1(j, i, P) or rule_2(j, i, P) or rule_3(j, i, P) or rule_4(j, i, P))
+            oriented_edges = %s
+            if forward:
+                # orient i -> j
+                if debug:
+                    rules = [rule_1(i, j, P), rule_2(i, j, P), rule_3(i, j, P), rule_4(i, j, P)]
+                    print('Rules: %%s => Oriented %%d -> %%d' %% (rules, i, j))
+                P[j, i] = 0
+            elif backward:
+                # orient j -> i
+""" % flag
+for _pid in ("C09", "C10"):
+    V("%s-meek-flag-per-edge" % _pid.lower(), _pid, "fire", UT, _MO_OLD, _mo_new("forward or backward"), rule="ORIENT.flag", what="the flag only remembers the last edge of a pass: the loop stops early")
+    V("%s-silent-meek-flag-accumulated" % _pid.lower(), _pid, "silent", UT, _MO_OLD, _mo_new("oriented_edges or forward or backward"), what="same restructuring with the flag accumulated over the pass")
